@@ -750,6 +750,10 @@ def builtin_isinstance(it, v, cls):
         "object": lambda: True,
         "type": lambda: isinstance(v, (ClassRef, NativeClass)),
     }
+    if isinstance(v, SV) and v.tag == "exc" and name in ("Exception", "BaseException"):
+        return True
+    if isinstance(v, Obj) and isinstance(cls, NativeClass):
+        return cls in it.mro(v.cls)
     if isinstance(v, SV) and v.kind == "val" and name in table and name != "object":
         p = z3.Function(f"val_isinstance_{name}", smt.Val, z3.BoolSort())
         return it.ctx.branch(p(v.t), f"isinstance(val,{name})")
